@@ -1241,9 +1241,11 @@ def const_int_of(body, op):
     return None
 
 
-def find_bodies(prog, pkg, adt=None, name=None, trait=None, prefix=None):
+def find_bodies(prog, pkg, adt=None, name=None, trait=None, prefix=None, exact=None):
     res = []
     for b in prog.crates[pkg].bodies:
+        if exact is not None and (b.kind == 'Closure' or norm(b.defpath) != exact):
+            continue
         if adt is not None and b.impl_adt != adt:
             continue
         if name is not None and b.name != name:
